@@ -171,6 +171,14 @@ def methodSig (recv : Ty) (m : Nat) : Option (List Ty × Ty) :=
   | .string, 11 => some ([], .string)
   | _, _ => none
 
+/-- "any type implementing a `to_string` method can be put in an f-string":
+    the built-in scalar types and String have one; records, enums, lists,
+    options, verdicts and `()` do not -/
+def printable : Ty → Bool
+  | .int _ | .f32 | .f64 | .bool | .string | .prim _ => true
+  | .anyInt _ | .anyFloat | .unknown | .never => true
+  | _ => false
+
 inductive RetKind | ret | accept | reject
   deriving DecidableEq, Repr, Inhabited
 
@@ -571,8 +579,8 @@ def synth (env : Env) (ctx : Ctx) (g : Gamma) : Expr → R TD
           let tr ← foldCompat "branches" ts .unknown
           pure (tr, d || (!arms.isEmpty && da))
   | .fstr parts => do
-    let (_, d) ← synthList env ctx g parts
-    pure (.string, d)
+    let (ts, d) ← synthList env ctx g parts
+    if ts.all printable then pure (.string, d) else fail "no-to-string"
 
 def fieldNames : List Field → List Nat
   | [] => []
